@@ -104,3 +104,15 @@ claim('C16', 'c16_null.h',
       'failure value without a memory fault and without leaving an allocation behind; at any level >= 1 it either does the same or ends through libast_fatal_error() with a diagnostic - '
       'never by dereferencing the NULL object. The level is one symbolic unsigned int per query.',
       'DESIGN.md section 4, C16')
+claim('C09', 'c09_conf.c',
+      'CBMC inductive-step check of the config parser context stack (depth symbolic 0..254 per capacity class) with logging handlers and symbolic handler states, plus whole short files through fopen/fgets/fclose stubs against an ideal reading',
+      'From every depth of the context stack (one symbolic depth per capacity class the doubling rule produces, incl. each growth point) one line of each kind is shown to produce exactly the '
+      'handler calls of the ideal reading - begin with the enclosing state, end whose result becomes the enclosing state, text to the innermost context with its state threaded - with the stack '
+      'index inside its storage; every file of up to the line bound over {comment, begin known/unknown, end, text} delivers the ideal call sequence, closes its stream once and leaves the file stack at 0.',
+      'DESIGN.md section 4, C09')
+claim('C11', 'c09_conf.c',
+      'CBMC check of the tables of the config subsystem, path lookup, temp-file protocol, adversarial lines and init/free lifecycle over file-system/process stubs; growth steps with symbolic index',
+      'One registration from every (index, capacity) pair of the four growing tables (index symbolic) keeps the live index inside the table; 23 adversarial lines parse without a memory fault and '
+      'without reaching system()/popen()/fork(); spifconf_find_file with PATH_MAX scaled to 24 stays inside its buffers for file/dir/path lengths around the limit whatever access()/stat() answer; '
+      'spiftool_temp_file calls mkstemp under umask 077, restores the umask, sets mode 0600 and terminates the returned name; two init/use/free cycles touch no freed state.',
+      'DESIGN.md section 4, C11')
